@@ -32,6 +32,9 @@ def one(name):
     try:
         rc, o = sh(['git', 'apply', os.path.join(d, 'patch.diff')], cwd=wt)
         if rc:
+            rc, o = sh(['git', 'apply', '--3way', os.path.join(d, 'patch.diff')], cwd=wt)
+            sh(['git', 'reset', '-q'], cwd=wt)
+        if rc:
             meta['patch_applies_to_head'] = False
             return name, meta
         meta['patch_applies_to_head'] = True
